@@ -303,6 +303,15 @@ def classify_failure(t, d, off, exp, ans, model, got, year_now):
     from dateutil import tz
     if ans == model == "err ParserError" and t['name'].startswith('hms_letters_') and t['name'][-1] in "35":
         return "D-C02-hms-fraction-token-length"        # exactly: rejected, model agrees, 3 or 5 fraction digits after NNhNNmNN
+    if ans == model == "err OverflowError" and off is not None and G.offset_seconds(off) == 0 and "UTC" in _time.tzname:
+        # D-C02-tzlocal-calendar-edge: exactly — zero offset under a zone called UTC, and the zone object's own tzname() overflows at
+        # the expected wall time (within the DST saving of datetime.min / max)
+        try:
+            exp.replace(tzinfo=tz.tzlocal()).tzname()
+            exp.replace(tzinfo=tz.tzlocal(), fold=1).tzname()
+        except OverflowError:
+            return "D-C02-tzlocal-calendar-edge"
+        return None
     if ans != model or not ans.startswith("ok ") or got is None:
         return None
     naive = got.replace(tzinfo=None)
@@ -443,7 +452,8 @@ def _known(kid):
 
 
 KNOWN = {"D-C02-hms-fraction-token-length": _known("D-C02-hms-fraction-token-length"),
-         "D-C02-monthname-century": _known("D-C02-monthname-century")}
+         "D-C02-monthname-century": _known("D-C02-monthname-century"),
+         "D-C02-tzlocal-calendar-edge": _known("D-C02-tzlocal-calendar-edge")}
 
 
 def replay(ctx, payload):
